@@ -1,6 +1,4 @@
 #!/bin/bash
-# every behaviour-preserving patch must leave every check silent (run against /tmp/seedrepo)
+# every behaviour-preserving patch must leave every check silent (static checks run on scratch worktrees, in parallel)
 cd "$(dirname "$0")/.."
-for p in mutants/benign/*.patch; do
-  python3 tools/seedtest.py --props C01,C02,C03,C04,C07,C08,C09,C10,C11,C12,C13,C14,C16,C18 "$p"
-done
+python3 tools/prun.py --jobs ${JOBS:-4} --props C01,C02,C03,C04,C07,C08,C09,C10,C11,C12,C13,C14,C16,C18 mutants/benign/*.patch
